@@ -594,6 +594,136 @@ def single_assignments_of(f, e):
     return []
 
 
+def rule_i(ctx, out):
+    """Which hard-constraint families are generated does not depend on optional flags where soundness needs them.
+    FullEncoding.generate_hard_constraints (with _select_additional_constraints_from_flags) is interpreted on a stand-in encoding
+    object, every constraint family replaced by a model that only records that it was asked for and with which subject, under every
+    combination of the flags the two methods read.  Required under every combination: the domain of t, the stack encoding of every
+    instruction, one of the two memory-order encodings (the one the flag names), initial and final stack, from-nop, each
+    uninterpreted instruction at least once, no output before pop; and with the direct memory encoding — which does not limit how
+    often a store occurs — `at most once` for every store."""
+    import itertools
+    from ..core.interp import ModuleInterp
+    from ..core.minieval import Unsupported, Raised
+    cls = ctx.p.cls(f"{ENC_PKG}.synthesis_full_encoding.FullEncoding")
+    gen = cls.methods.get("generate_hard_constraints")
+    if gen is None:
+        raise AnalysisError("FullEncoding.generate_hard_constraints not found")
+    # flags read by the two methods and the values they are compared with
+    domains = {}
+    for m in ctx.with_helpers(gen):
+        for n in own_nodes(m.node):
+            if isinstance(n, ast.Attribute) and isinstance(n.value, ast.Attribute) and n.value.attr == "_flags" and is_name(n.value.value, "self"):
+                dom = domains.setdefault(n.attr, set())
+                p_ = getattr(n, "_parent", None)
+                if isinstance(p_, ast.Compare) and p_.left is n:
+                    dom |= {c.value for c in p_.comparators if isinstance(c, ast.Constant) and isinstance(c.value, str)}
+                elif isinstance(p_, ast.Attribute) and p_.attr == "startswith":
+                    call = getattr(p_, "_parent", None)
+                    if isinstance(call, ast.Call) and call.args and isinstance(call.args[0], ast.Constant):
+                        dom |= {call.args[0].value + "_uf", call.args[0].value + "_int"}
+    if "memory_encoding" not in domains:
+        raise AnalysisError("generate_hard_constraints no longer reads the memory_encoding flag")
+    # a string flag ranges over the choices the command line declares for it (dest=<flag>, choices=[...])
+    declared = {}
+    for m_ in ctx.p.modules.values():
+        for c in ast.walk(m_.tree):
+            if isinstance(c, ast.Call) and isinstance(c.func, ast.Attribute) and c.func.attr == "add_argument":
+                kw = {k.arg: k.value for k in c.keywords}
+                if isinstance(kw.get("dest"), ast.Constant) and isinstance(kw.get("choices"), (ast.List, ast.Tuple)):
+                    declared[kw["dest"].value] = {e.value for e in kw["choices"].elts if isinstance(e, ast.Constant)}
+    for k, d in domains.items():
+        if d:
+            if k in declared:
+                domains[k] = set(declared[k])
+            else:
+                d.add("<another value>")
+    names = sorted(domains)
+    values = [sorted(domains[k]) if domains[k] else [False, True] for k in names]
+
+    class Obj:
+        def __init__(self, **kw):
+            self.__dict__.update(kw)
+
+    class Enc(Obj):
+        def encode_instruction(self, instr, *a, **k):
+            return [("stack-encoding", instr.theta_value)]
+
+    class TF(Obj):
+        def created_theta_values(self):
+            return [1, 2]
+
+        def created_stack_vars(self):
+            return ["a", "b"]
+    subset = Obj(basic="basic", store="store", comm="comm", non_comm="non_comm", pop="pop")
+
+    def ins(theta, name, sub, unique=True):
+        return Obj(theta_value=theta, opcode_name=name, instruction_subset=sub, unique_ui=unique, id=f"{name}_{theta}")
+    basic = [ins(0, "PUSH", "basic"), ins(1, "POP", "pop"), ins(2, "NOP", "basic"), ins(3, "SWAP1", "basic"), ins(4, "DUP1", "basic")]
+    unint = [ins(5, "MSTORE", "store"), ins(6, "SSTORE", "store"), ins(7, "ADD", "comm"), ins(8, "MLOAD", "non_comm")]
+
+    def family(name, subject=None):
+        def model(*a, **k):
+            return [(name, subject(*a, **k) if subject else None)]
+        return model
+    extern = {n_: family(n_) for n_ in ("restrict_t_domain", "l_conflicting_constraints", "direct_conflict_constraints", "stack_encoding_for_terminal",
+                                        "expressions_are_distinct", "initialize_stack_variables", "fromnop_encoding", "each_instruction_is_used_at_least_once",
+                                        "no_output_before_pop")}
+    extern["stack_encoding_for_position"] = extern["stack_encoding_for_position_empty"] = family("stack-at-position", lambda pos, *a, **k: pos)
+    extern["each_function_is_used_at_most_once"] = family("at-most-once", lambda tf, b, theta, *a, **k: theta)
+    mi = ModuleInterp(ctx, max_steps=200000, extern=extern, obj_types=(Obj,), inject={"InstructionSubset": subset})
+    Full = mi.fake_class(cls)
+    n = 0
+    for combo in itertools.product(*values):
+        flags = Obj(**dict(zip(names, combo)))
+        for terminal in (False, True):
+            me = Full(_flags=flags, _term_factory=TF(), _bounds="B", _instructions=basic + unint, _basic_instructions=basic, _uninterpreted_instructions=unint,
+                      _encoding_stack=Enc(), _dependency_graph={}, mem_order=[], b0=7, bs=3, initial_stack=["x"], final_stack=["y"], _initial_idx=0, _terminal=terminal)
+            try:
+                got = me.generate_hard_constraints()
+            except Raised as e:
+                got = [("raises", e.what)]
+            except Unsupported as e:
+                raise AnalysisError(f"generate_hard_constraints cannot be evaluated abstractly under {dict(zip(names, combo))}: {e}")
+            n += 1
+            fams = [g for g in got if isinstance(g, tuple)]
+            have = lambda nm, subj=None: any(f[0] == nm and (subj is None or f[1] == subj) for f in fams)
+            direct = flags.memory_encoding == "direct"
+            missing = []
+            if fams and fams[0][0] == "raises":
+                missing.append(f"raises {fams[0][1]}")
+            for nm in ("restrict_t_domain", "fromnop_encoding", "each_instruction_is_used_at_least_once", "no_output_before_pop"):
+                if not have(nm):
+                    missing.append(nm)
+            for i_ in basic + unint:
+                if not have("stack-encoding", i_.theta_value):
+                    missing.append(f"stack encoding of {i_.opcode_name}")
+                    break
+            if not have("stack-at-position", 0):
+                missing.append("initial stack")
+            if not (have("stack-at-position", 7) or have("stack_encoding_for_terminal")):
+                missing.append("final stack")
+            if flags.memory_encoding == "l_vars" and not have("l_conflicting_constraints"):
+                missing.append("l_conflicting_constraints")
+            if flags.memory_encoding != "l_vars" and not have("direct_conflict_constraints"):
+                missing.append("direct_conflict_constraints")
+            if flags.memory_encoding != "l_vars":
+                for st in (5, 6):
+                    if not have("at-most-once", st):
+                        missing.append("at most once for a store")
+                        break
+            if not missing:
+                out.ok()
+            else:
+                setting = ", ".join(f"{k}={v!r}" for k, v in zip(names, combo))
+                out.bad(f"hard-constraint-family-missing:{missing[0].replace(' ', '-')}", f"with the flags ({setting}{', terminal block' if terminal else ''}) the hard constraints "
+                        f"lack: {', '.join(missing)} — a model of the remaining constraints need not decode to a realizing sequence", where(gen),
+                        {"flags": setting, "generated": sorted({f[0] for f in fams})})
+    out.samples.append({"flag_settings_evaluated": n, "flags": {k: sorted(map(str, v)) for k, v in zip(names, values)}})
+    if n < 16:
+        raise AnalysisError(f"only {n} flag settings evaluated")
+
+
 TERMS = "smt_encoding.complete_encoding.synthesis_opcode_term_creation"
 
 
@@ -809,6 +939,7 @@ def _never(er, h, bs, dom, ev, a_val):
 
 
 RULES = [
+    ("C06.i", "mandatory hard-constraint families are generated under every flag setting", 16, rule_i),
     ("C06.h", "stack constraints = transition relation of the stack machine (small instance)", 30, rule_h),
     ("C06.g", "order and multiplicity constraints mean what they are documented to mean", 14, rule_g),
     ("C06.f", "integer codes of stack terms are dense; `empty` gets a fresh code", 4, rule_f),
